@@ -139,10 +139,15 @@ Proof.
   - unfold pr_path. specialize (H p eq_refl). destruct (cp_head p); [contradiction|discriminate].
 Qed.
 
+(* the text of a type begins with a word character *)
+Definition whead (x : list byte) : Prop := exists b0 rest, x = b0 :: rest /\ identch b0 = true.
+Lemma whead_nonnil x : whead x -> x <> [].
+Proof. intros [b0 [rest [-> _]]]. discriminate. Qed.
+
 Definition tyP (c : cty) (r : list byte) : Prop :=
-  (heads_ok_ty c = true -> wf_ty c = true) /\ (ty_ends_word c = true -> nid r = true) /\ pr_ty c r <> [].
+  (heads_ok_ty c = true -> wf_ty c = true) /\ (ty_ends_word c = true -> nid r = true) /\ whead (pr_ty c r).
 Definition typeP (c : ctype) (r : list byte) : Prop :=
-  (heads_ok_type c = true -> wf_type c = true) /\ (type_ends_word c = true -> nid r = true) /\ pr_type c r <> [].
+  (heads_ok_type c = true -> wf_type c = true) /\ (type_ends_word c = true -> nid r = true) /\ whead (pr_type c r).
 
 Lemma type_of_inv (pty : parser Ty) :
   (forall i r t, pty i = POk r t -> exists c, i = pr_ty c r /\ erase_ty c = t /\ tyP c r) ->
@@ -184,7 +189,7 @@ Proof.
     { intros kw T B E1 E2 Hb. subst kw T. destruct (base_inv _ _ _ _ _ Hb) as [-> [-> Hk]]. exists (CTBase B). unfold tyP.
       cbn [pr_ty erase_ty ty_ends_word heads_ok_ty wf_ty]. repeat split; auto.
       - intros _. now apply kwend_nid.
-      - destruct B; discriminate. }
+      - destruct B; eexists _, _; split; reflexivity. }
     repeat (destruct Hin as [<-|Hin]; [first [apply (G _ _ BString eq_refl eq_refl H) | apply (G _ _ BVoid eq_refl eq_refl H)
       | apply (G _ _ BByte eq_refl eq_refl H) | apply (G _ _ BBool eq_refl eq_refl H) | apply (G _ _ BBinary eq_refl eq_refl H)
       | apply (G _ _ BI8 eq_refl eq_refl H) | apply (G _ _ BI16 eq_refl eq_refl H) | apply (G _ _ BI32 eq_refl eq_refl H)
@@ -198,9 +203,9 @@ Proof.
       apply tag_inv in E1. destruct E1 as [-> _]. destruct (oblank_inv _ _ _ _ E2) as [b2 [-> [K2 _]]].
       destruct (IHT _ _ _ E3) as [ci [-> [<- [Hw [He Hn]]]]]. destruct (oblank_inv _ _ _ _ E4) as [b3 [-> [K3 _]]].
       apply tag_inv in E5. destruct E5 as [-> _]. destruct (ocpp_inv _ _ _ E6) as [cpp [-> [<- Wc]]].
-      exists (CTList b1 b2 ci b3 cpp). cbn [pr_ty erase_ty]. repeat split; try discriminate.
+      exists (CTList b1 b2 ci b3 cpp). cbn [pr_ty erase_ty]. split; [reflexivity|]. split; [reflexivity|]. split; [|split; [discriminate|eexists _, _; split; reflexivity]].
       intros Hh. cbn [heads_ok_ty wf_ty] in *. rewrite (blank_ok_nonnil _ _ K1) by discriminate.
-      rewrite (blank_ok_nonnil _ _ K2) by exact Hn. rewrite (Hw Hh). rewrite (blank_ok_nonnil _ _ K3) by discriminate. now rewrite Wc.
+      rewrite (blank_ok_nonnil _ _ K2) by (apply whead_nonnil, Hn). rewrite (Hw Hh). rewrite (blank_ok_nonnil _ _ K3) by discriminate. now rewrite Wc.
     + (* set *)
       unfold alt_set in H. binv H. inversion H; subst.
       apply tag_inv in E. destruct E as [-> _]. destruct (ocpp_inv _ _ _ E0) as [cpp [-> [<- Wc]]].
@@ -208,9 +213,9 @@ Proof.
       apply tag_inv in E2. destruct E2 as [-> _]. destruct (oblank_inv _ _ _ _ E3) as [b2 [-> [K2 _]]].
       destruct (IHT _ _ _ E4) as [ci [-> [<- [Hw [He Hn]]]]]. destruct (oblank_inv _ _ _ _ E5) as [b3 [-> [K3 _]]].
       apply tag_inv in E6. destruct E6 as [-> _].
-      exists (CTSet cpp b1 b2 ci b3). cbn [pr_ty erase_ty]. repeat split; try discriminate.
+      exists (CTSet cpp b1 b2 ci b3). cbn [pr_ty erase_ty]. split; [reflexivity|]. split; [reflexivity|]. split; [|split; [discriminate|eexists _, _; split; reflexivity]].
       intros Hh. cbn [heads_ok_ty wf_ty] in *. rewrite Wc. rewrite (blank_ok_nonnil _ _ K1) by discriminate.
-      rewrite (blank_ok_nonnil _ _ K2) by exact Hn. rewrite (Hw Hh). now rewrite (blank_ok_nonnil _ _ K3) by discriminate.
+      rewrite (blank_ok_nonnil _ _ K2) by (apply whead_nonnil, Hn). rewrite (Hw Hh). now rewrite (blank_ok_nonnil _ _ K3) by discriminate.
     + (* map *)
       unfold alt_map in H. binv H. inversion H; subst.
       apply tag_inv in E. destruct E as [-> _]. destruct (ocpp_inv _ _ _ E0) as [cpp [-> [<- Wc]]].
@@ -221,10 +226,10 @@ Proof.
       destruct (noblank_oblank _ _ _ _ N4 E7) as [-> _].
       destruct (IHT _ _ _ E8) as [cv [-> [<- [Hwv [Hev Hnv]]]]]. destruct (oblank_inv _ _ _ _ E9) as [b5 [-> [K5 _]]].
       apply tag_inv in E10. destruct E10 as [-> _].
-      exists (CTMap cpp b1 b2 ck b3 semi b4 cv b5). cbn [pr_ty erase_ty]. repeat split; try discriminate.
+      exists (CTMap cpp b1 b2 ck b3 semi b4 cv b5). cbn [pr_ty erase_ty]. split; [reflexivity|]. split; [reflexivity|]. split; [|split; [discriminate|eexists _, _; split; reflexivity]].
       intros Hh. cbn [heads_ok_ty wf_ty] in *. apply andb_prop in Hh. destruct Hh as [Hh1 Hh2]. rewrite Wc.
-      rewrite (blank_ok_nonnil _ _ K1) by discriminate. rewrite (blank_ok_nonnil _ _ K2) by exact Hnk. rewrite (Hwk Hh1).
-      rewrite (blank_ok_nonnil _ _ K3) by (destruct semi; discriminate). rewrite (blank_ok_nonnil _ _ K4) by exact Hnv.
+      rewrite (blank_ok_nonnil _ _ K1) by discriminate. rewrite (blank_ok_nonnil _ _ K2) by (apply whead_nonnil, Hnk). rewrite (Hwk Hh1).
+      rewrite (blank_ok_nonnil _ _ K3) by (destruct semi; discriminate). rewrite (blank_ok_nonnil _ _ K4) by (apply whead_nonnil, Hnv).
       rewrite (Hwv Hh2). now rewrite (blank_ok_nonnil _ _ K5) by discriminate.
     + (* path *)
       apply alt_one_inv in H. apply pmap_ok in H. destruct H as [l [H ->]].
@@ -233,7 +238,8 @@ Proof.
       * cbn [heads_ok_ty wf_ty]. intros Hh. now rewrite Wp, Hh.
       * intros _. exact Hnr.
       * cbn [pr_ty]. unfold pr_path. unfold wf_path in Wp. apply andb_prop in Wp. destruct Wp as [Wh _].
-        destruct (cp_head p); [discriminate Wh|cbn [app]; discriminate].
+        destruct (cp_head p) as [|h0 hs]; [discriminate Wh|]. cbn [is_ident] in Wh. apply andb_prop in Wh. destruct Wh as [Wh _].
+        exists h0, (hs ++ pr_path_tail (cp_tail p) r). split; [reflexivity|now apply identch_head].
 Qed.
 
 Theorem type_inv d i r t : p_type lf d i = POk r t -> exists c, i = pr_type c r /\ erase_type c = t /\ typeP c r.
